@@ -24,6 +24,11 @@ BINDERS = {
     "builder-handle": ("[g(bx) | bx in l] handle\n    err: E => print(0)", "bx"),
     "match-arm-stmt": ("match a\n    1 => print(1)\n    bx => print(bx)", "bx"),
     "match-arm-def": ("def m1 := match a\n    1 => 1\n    bx => bx", "bx"),
+    "match-first-arm-body-def": ("match a\n    1 =>\n        def bx := 1\n        print(bx)\n    _ => print(0)", "bx"),
+    "match-second-arm-body-def": ("match a\n    1 => print(0)\n    _ =>\n        def bx := 1\n        print(bx)", "bx"),
+    "match-def-first-arm-body-def": ("def m1 := match a\n    1 =>\n        def bx := 1\n        bx\n    _ => 0", "bx"),
+    "handle-first-arm-body-def": ("def r1 := g(1) handle\n    err: E =>\n        def bx := 1\n        bx", "bx"),
+    "handle-stmt-arm-body-def": ("print(g(1)) handle\n    err: E =>\n        def bx := 1\n        print(bx)", "bx"),
     "for-variable": ("for bx in l do print(bx)", "bx"),
     "for-range-variable": ("for bx in 0 .. 3 do print(bx)", "bx"),
     "function-parameter": ("def f1(bx: Int) -> Int => bx", "bx"),
@@ -46,6 +51,9 @@ USES = {
     "reassign": "{n} := 5",
     "argument": "print(g({n}))",
     "in-builder": "def m9 := [{n} + q9 | q9 in l]",
+    "typed-definition": "def u1: Int := {n}",
+    "typed-parameter": "def u1 := g({n})",
+    "returned": "def f9() -> Int => {n}\nprint(f9())",
 }
 CONTEXTS = ["top", "function", "if", "method"]
 # every syntactic position an expression can stand in: a name that is never defined (or only later) is rejected in each
@@ -176,7 +184,11 @@ def ctor_body(rng, depth, nf):
         elif k < 0.72:
             out.append(("L", ctor_body(rng, depth - 1, nf), rng.choice(["for", "while"])))
         elif k < 0.84:
-            out.append(("M", [ctor_body(rng, depth - 1, nf) for _ in range(rng.randint(1, 3))], rng.random() < 0.6))
+            # (every arm ends with the same kind of statement: the checker unifies the "types" of the arm bodies of a
+            # statement-form match as well, and rejects e.g. a loop in one arm next to a print in another)
+            arms = [ctor_body(rng, depth - 1, nf) for _ in range(rng.randint(1, 3))]
+            arms = [a if a[-1][0] in "SR" else a + [("S",)] for a in arms]
+            out.append(("M", arms, rng.random() < 0.6))
         elif k < 0.94:
             out.append(("H", [ctor_body(rng, depth - 1, nf) for _ in range(rng.randint(1, 2))]))
         else:
